@@ -7,11 +7,11 @@ Import ListNotations.
 Open Scope Z_scope.
 
 (* to_df: one row per task *)
-Record dfrow := { df_name : nat; df_resources : list string; df_start : Z; df_end : Z; df_duration : Z; df_scheduled : bool }.
+Record dfrow := { df_name : nat; df_resources : list resobj; df_start : Z; df_end : Z; df_duration : Z; df_scheduled : bool }.
 Definition df_rows (s : solution) : list dfrow :=
   map (fun t => {| df_name := ts_id t; df_resources := ts_assigned t; df_start := ts_start t; df_end := ts_end t;
                    df_duration := ts_dur t; df_scheduled := ts_sched t |}) (so_tasks s).
-Definition df_decode (r : dfrow) : nat * list string * Z * Z * Z * bool :=
+Definition df_decode (r : dfrow) : nat * list resobj * Z * Z * Z * bool :=
   (df_name r, df_resources r, df_start r, df_end r, df_duration r, df_scheduled r).
 
 (* Excel: a cell operation = (row, first column, last column, text); a single cell has first = last *)
@@ -28,7 +28,7 @@ Definition resource_sheet (s : solution) : list cellop :=
   flat_map (fun '(i, r) => map (fun '(t, a, b) => bar (S i) a b (show_task t)) (rs_assignments r)) (indexed 0 (so_resources s)).
 (* "GANTT Task view": row i+1 for the i-th task, the text is the comma-joined list of assigned resources *)
 Definition task_sheet (s : solution) : list cellop :=
-  map (fun '(i, t) => bar (S i) (ts_start t) (ts_end t) (join "," (ts_assigned t))) (indexed 0 (so_tasks s)).
+  map (fun '(i, t) => bar (S i) (ts_start t) (ts_end t) (join "," (map resobj_name (ts_assigned t)))) (indexed 0 (so_tasks s)).
 Definition indicator_sheet (s : solution) : list (nat * string * Z) :=
   map (fun '(i, (k, v)) => (S i, k, v)) (indexed 0 (so_indicators s)).
 
